@@ -995,10 +995,7 @@ func (c *Ctx) isSecondsOf(v ssa.Value, pred func(ssa.Value) bool) bool {
 func (c *Ctx) checkPingerBody(r *Report, m *gwModel, kaCell string) {
 	n := 0
 	for _, f := range c.repoFuncs("gateway") {
-		if f.Parent() == nil {
-			continue
-		}
-		// closure passed to group.Go that sends an MQTT PINGREQ in a loop
+		// goroutine body (closure passed to group.Go, or the method it forwards to) that sends an MQTT PINGREQ in a loop
 		sendsPing := false
 		var sendInstr ssa.Instruction
 		allInstrs(f, func(i ssa.Instruction) {
